@@ -147,6 +147,11 @@ class Engine(GenericConcreteEngine[Callable[..., Any]]):
                     return transfer.reapply(operation.apply(target)), True, ()
                 else:
                     upstream, done, messages = target.engine.backtrack_unary(operation, target, preferred)
+                    if upstream is target:
+                        # Nothing was inserted upstream; return the tree itself
+                        # so callers see it as unchanged (reapply would drop an
+                        # existing payload and return a new object).
+                        return tree, done, messages
                     return (transfer.reapply(upstream), done, messages)
         raise NotImplementedError(f"Unsupported relation type {tree} for engine {self}.")
 
